@@ -313,6 +313,10 @@ def rule_d(repo, res, R, W, where):
     ru = R["read_uint"]
     n0, e0 = pfind("X_v = 1", ru)
     ok = e0 is not None and pfind("if self.read_bit():\n    break\nelse:\n    X_v <<= 1\n    X_v += self.read_bit()", ru, e0)[0] is not None and pfind("X_v -= 1", ru, e0)[0] is not None and pfind("return X_v", ru, e0)[0] is not None
+    # ... for as long as the stream says so: the loop is unbounded (`while True`), its only exit is the stop bit
+    loops = [l for l in ast.walk(ru) if isinstance(l, (ast.While, ast.For))]
+    unbounded = len(loops) == 1 and isinstance(loops[0], ast.While) and isinstance(loops[0].test, ast.Constant) and loops[0].test.value is True and not loops[0].orelse and sum(1 for x in ast.walk(loops[0]) if isinstance(x, (ast.Break, ast.Return, ast.Raise))) == 1
+    res.check(unbounded, "C20.d", "read_uint:reads-until-the-stop-bit", "%s:BitstreamReader.read_uint" % where, "read_uint must loop `while True` with the stop bit as its only exit: the writer (and the validator's pinned read_uint) put no bound on the code length, so a bounded loop returns a truncated value for long codes and leaves the rest of the code in the stream", by="while True, single break on the 1 prefix bit")
     res.check(ok, "C20.d", "read_uint:mirrors-write_uint", "%s:BitstreamReader.read_uint" % where, "read_uint must start from 1, stop on a 1 prefix bit, otherwise shift in one data bit, and finally subtract 1", by="start 1; 0-prefix: shift in a bit; 1-prefix: stop; minus 1")
 
 
